@@ -353,6 +353,7 @@ def run(chk: Check) -> None:
     run_plugins_snapshot(chk, ix)
     run_meta_tests_use_meta(chk, ix)
     run_suppression_reason(chk, ix)
+    run_import_diagnosis_has_cached_standins(chk, ix)
     # the cached interface must come back as it was written (bound from C11: R11.11, None is encoded exactly)
     from ..resolve import Resolver
     from .c11 import run_none_encoding
@@ -708,3 +709,60 @@ def _only_follow(t: ast.expr) -> bool:
     """The test mentions nothing but follow_imports comparisons (so its negation can be evaluated exactly)."""
     names = {x.id for x in ast.walk(t) if isinstance(x, ast.Name)}
     return names <= {"follow_imports"}
+
+
+def run_import_diagnosis_has_cached_standins(chk: Check, ix) -> None:
+    """R02.19: what the diagnosis of a missing import reads from the importing State is available for a State loaded from the cache."""
+    r19 = chk.rule("R02.19", "build.module_not_found reports a missing import on behalf of the importing module (`caller_state`). In a cold run that module has been parsed when its imports are followed; in a warm run it has been loaded from its cache record and is parsed (if at all) only later. Every State attribute the function reads that is assigned on the parsing path (State.parse_file and the methods it reaches through `self`) therefore needs a stand-in kept in the cache record, selected by a test of `caller_state.tree` (as `imports_ignored` stands in for `tree.ignored_lines`)", floor=2)
+    b = ix.module("mypy.build")
+    st = ix.cls("mypy.build.State")
+    mnf = b.functions.get("module_not_found")
+    if mnf is None or "parse_file" not in st.methods:
+        raise AnalysisError("build.module_not_found / State.parse_file not found")
+    # attributes assigned on the parsing path
+    seen, todo = set(), ["parse_file"]
+    while todo:
+        n = todo.pop()
+        if n in seen or n not in st.methods:
+            continue
+        seen.add(n)
+        for c in ast.walk(st.methods[n].node):
+            if isinstance(c, ast.Call) and isinstance(c.func, ast.Attribute) and isinstance(c.func.value, ast.Name) and c.func.value.id == "self":
+                todo.append(c.func.attr)
+    parsed_attrs: dict[str, str] = {}
+    for n in sorted(seen):
+        for a in ast.walk(st.methods[n].node):
+            tgts = a.targets if isinstance(a, ast.Assign) else [a.target] if isinstance(a, (ast.AugAssign, ast.AnnAssign)) else []
+            for t in tgts:
+                if isinstance(t, ast.Attribute) and isinstance(t.value, ast.Name) and t.value.id == "self":
+                    parsed_attrs.setdefault(t.attr, n)
+    if not {"tree", "options"} <= set(parsed_attrs):
+        raise AnalysisError(f"State.parse_file closure {sorted(seen)} assigns {sorted(parsed_attrs)}: `tree` and `options` expected among them")
+    par = mnf.module.parents()
+    reads: dict[str, list[ast.Attribute]] = {}
+    for a in ast.walk(mnf.node):
+        if isinstance(a, ast.Attribute) and isinstance(a.value, ast.Name) and a.value.id == "caller_state" and a.attr in parsed_attrs:
+            reads.setdefault(a.attr, []).append(a)
+    for attr, sites in sorted(reads.items()):
+        unguarded = []
+        for a in sites:
+            # a read is covered when it sits in the true arm of a conditional on caller_state.tree that has another arm,
+            # or is the test itself
+            p, child, ok = par[a], a, False
+            while p is not mnf.node:
+                if isinstance(p, (ast.IfExp, ast.If)) and "caller_state.tree" in norm(p.test):
+                    other = [p.orelse] if isinstance(p, ast.IfExp) else p.orelse
+                    if child is p.test:
+                        ok = True
+                    else:
+                        # the other arm reads something the cache record restores
+                        ok = any(isinstance(x, ast.Attribute) and isinstance(x.value, ast.Name) and x.value.id == "caller_state" and x.attr not in parsed_attrs for o in other for x in ast.walk(o))
+                    break
+                child, p = p, par[p]
+            if not ok:
+                unguarded.append(a)
+        key = f"module_not_found: caller_state.{attr} (assigned by State.{parsed_attrs[attr]}) has a stand-in for a State loaded from the cache"
+        if not unguarded:
+            r19.ok(key, mnf.loc(sites[0]))
+        else:
+            r19.violation(key, mnf.loc(unguarded[0]), f"`caller_state.{attr}` is read at {len(unguarded)} place(s) without a `caller_state.tree` alternative: for an importing module loaded from the cache the value is the one State.__init__ computed, not the one parsing would produce (for `options`: inline `# mypy:` configuration such as disable-error-code / ignore-errors is missing), so the warm run reports a missing import the cold run does not")
